@@ -30,7 +30,11 @@ func drawC01(t *rapid.T) polCase {
 	arch := drawArch(t)
 	prof := []gen.Profile{gen.NamesOnly, gen.NamesOnly, gen.NamesOnly, gen.Small, gen.Degenerate, gen.Long}[rapid.IntRange(0, 5).Draw(t, "profile")]
 	p := gen.Policy(t, arch, gen.Opts{Profile: prof})
-	return polCase{Policy: p, Seed: rapid.Uint64().Draw(t, "seed"), Extra: drawExtraEvents(t, &p, 3)}
+	c := polCase{Policy: p, Seed: rapid.Uint64().Draw(t, "seed"), Extra: drawExtraEvents(t, &p, 3)}
+	if rapid.IntRange(0, 5).Draw(t, "prevArch") == 0 {
+		c.Prev = drawArch(t)
+	}
+	return c
 }
 
 var rejectedStats = map[string]*[2]int{}
@@ -53,7 +57,7 @@ func checkC01(raw json.RawMessage) (ev.Result, error) {
 		return ev.Result{}, err
 	}
 	p := &c.Policy
-	cp, cerr, pan := compilePolicy(p)
+	cp, cerr, pan := compilePolicyAfter(p, c.Prev)
 	if pan != nil {
 		return ev.Result{}, fmt.Errorf("Assemble panicked: %v", pan)
 	}
@@ -67,6 +71,9 @@ func checkC01(raw json.RawMessage) (ev.Result, error) {
 	}
 	st := &evalStats{classes: map[string]bool{}}
 	policyShape(p, cp, st)
+	if c.Prev != "" && c.Prev != p.Arch {
+		st.class("value-compiled-for-another-architecture-before")
+	}
 	evs := gen.Events(p, c.Seed, gen.EventOpts{Own: true, PerNr: 2, MaxNrs: 120, Consts: cp.consts})
 	x32bit := oracle.Const("__X32_SYSCALL_BIT")
 	for _, e := range c.Extra {
